@@ -219,13 +219,18 @@ def main():
     n_obl = t1["obligations"] if t1 else 0
     n_dis = t1["discharged"] if t1 else 0
     undecided = t1.get("undecided", []) if t1 else []
-    level_claim = (t1 or {}).get("level_if_all_discharged", "exploration")
-    if t1 and n_obl > 0 and n_dis == n_obl and level_claim == "proof":
-        level = "proof"
-    elif t2 and t2.get("evaluations", 0) > 0:
-        level = "exploration" if not (t1 and n_obl) else "other"
+    try:
+        from vlib import props
+        level_claim = props.P[prop]["cat"]
+    except Exception:
+        level_claim = "exploration" if not t1 else "other"
+    if level_claim == "proof":
+        # a proof-level record needs every obligation of this run discharged; otherwise the run says so
+        level = "proof" if (t1 and n_obl > 0 and n_dis == n_obl) else "other"
+    elif level_claim == "exploration":
+        level = "exploration" if (t2 and t2.get("evaluations", 0) > 0) else "other"
     else:
-        level = "other"
+        level = level_claim
     cov = {}
     if t2:
         cov.update({
